@@ -28,6 +28,12 @@ theorem NClaim.actor {s s' : State} {e : Event} (hA : InvA s) (hN : InvN s)
   all_goals (try (simp_all [NClaim, NKN, StkN, CPos.pending]; done))
   all_goals (try (exact NClaim.freeLoopStartPc _ _ _ _ _))
   all_goals (try (exact NClaim.afterNotifyPc hc.1 hc.2.1 (hc.2.2 rfl)))
+  all_goals (try (exact NClaim.afterNotify hc.1 hc.2.1 (hc.2.2 rfl)))
+  all_goals (try (exact NClaim.afterDeadline_zero hc.1 hc.2.1 (Or.inl (by assumption))))
+  all_goals (try (
+    obtain ⟨h1, h2, h3⟩ := hc
+    obtain ⟨h4, h5, h6⟩ := h3 rfl
+    exact NClaim.afterDeadline h1 h2 h4 h5 h6))
   all_goals (try (exact NClaim.childReturnPc hc (notified_of_ntime ‹_›)))
   all_goals (try (exact NClaim.childReturnPc hc (hc.2.2.2.2.2.1 rfl)))
   all_goals (try (exact NClaim.childWakeNextPc hc (hc.2.2.2.2.2.1 rfl)))
@@ -42,6 +48,11 @@ theorem NClaim.actor {s s' : State} {e : Event} (hA : InvA s) (hN : InvN s)
   all_goals (try (exact NClaim.skip hc))
   all_goals (try (exact NClaim.malloc _ _ _ _ _))
   all_goals (try (exact ⟨hc.1, fun _ => hc.2 rfl⟩))
+  -- nsync_note_new finds the parent notified
+  all_goals (try (
+    obtain ⟨_, hkp⟩ := (by assumption : _ = Site.newLd ∧ _)
+    subst hkp
+    exact ⟨hc.1, fun _ => ⟨notified_of_ntime (by assumption), by assumption⟩⟩))
   -- the store of the flag
   all_goals (try (
     obtain ⟨_, _, hkf, _⟩ := (by assumption : _ = Site.childSt ∧ _ ∧ _ ∧ _)
